@@ -168,8 +168,40 @@ def parseFrame : List String → Option (Dir × Frame)
     some (d, .windowUpdate s i)
   | _ => none
 
+/-- Is `b` a sequence of "literal without indexing, new name" fields without Huffman (what the
+model-compared harness endpoints send)? Other blocks are opaque to the model. -/
+def litStr (fuel : Nat) : Bytes → Option Bytes
+  | [] => none
+  | c :: rest =>
+    if c.toNat ≥ 128 then none
+    else if c.toNat < 127 then (if c.toNat ≤ rest.length then some (rest.drop c.toNat) else none)
+    else
+      let rec go (fuel m acc : Nat) : Bytes → Option (Nat × Bytes)
+        | [] => none
+        | x :: xs =>
+          match fuel with
+          | 0 => none
+          | fuel + 1 =>
+            let acc' := acc + (x.toNat % 128) * 2 ^ m
+            if x.toNat ≥ 128 then go fuel (m + 7) acc' xs else some (acc', xs)
+      match go fuel 0 127 rest with
+      | some (n, r) => if n ≤ r.length then some (r.drop n) else none
+      | none => none
+
+def isLiteralBlock : Nat → Bytes → Bool
+  | _, [] => true
+  | 0, _ => false
+  | fuel + 1, c :: rest =>
+    if c != 0 then false
+    else match litStr 5 rest with
+      | none => false
+      | some r1 => match litStr 5 r1 with
+        | none => false
+        | some r2 => isLiteralBlock fuel r2
+
 structure DrvSt where
   sys : Sys := {}
+  oom : Bool := false          -- an input outside the model's domain was seen: nothing is predicted any more
   pendC : Option Nat := none   -- stream of the header block the client is in the middle of sending
   pendS : Option Nat := none
   hzC : Bool := false          -- F08b class reached on the client-to-server relay
@@ -235,6 +267,7 @@ def step (st : St) (toks : List String) : St × String :=
   match st with
   | none => (none, "dead")
   | some ds =>
+    if ds.oom then (st, "out-of-model") else
     if (toks.head?.getD "").startsWith "hp." then
       match hpStep ds toks with
       | some (ds', line) => (some ds', line)
@@ -257,11 +290,26 @@ def step (st : St) (toks : List String) : St × String :=
       match sysStep s d f (List.replicate (enc.getD 0) 0) order with
       | none => (none, "panic")
       | some s' =>
-        let hz := match blockEnd f with | some sid => hazard (s'.relay d) sid | none => false
+        -- F08b class: (1) another stream still holds an encoded block; (2) this block carries a
+        -- size update (the encoder had one pending) and stays queued itself
+        let hz := match blockEnd f with
+          | some sid => hazard (s'.relay d) sid ||
+              ((s.hp d).enc.pending &&
+               ((s'.relay d).ob sid).q.any fun q => q.stamp? == some (s.relay d).nextStamp)
+          | none => false
         let pend' := blockOpen f
         let ds' : DrvSt := match d with
           | .c2s => { ds with sys := s', pendC := pend', hzC := ds.hzC || hz }
           | .s2c => { ds with sys := s', pendS := pend', hzS := ds.hzS || hz }
+        -- an opaque block that is not literal-only (hand-written or shrunk input): not predicted
+        let opaqueBad := match f with
+          | .headers _ _ true _ frag => !isLiteralBlock frag.length frag
+          | .pushPromise _ _ true frag => !isLiteralBlock frag.length frag
+          | .continuation _ true _ =>
+            let b := (match d with | .c2s => s'.dc | .s2c => s'.ds).hbuf
+            !isLiteralBlock b.length b
+          | _ => false
+        if opaqueBad then (some { ds' with oom := true }, "out-of-model") else
         if (s'.errC && !s.errC) || (s'.errS && !s.errS) then
           (none, render "err" ds'.hzC ds'.hzS s s')   -- the direction ends; the harness abandons the case
         else (some ds', render "ok" ds'.hzC ds'.hzS s s')
